@@ -12,7 +12,7 @@ CLAIMED = {
          'specification, the skip-sorting test and the extended sort order of optimize_extended_range. The hand-written model is tied '
          'to the code by a correspondence check: every public method (95) is run on pre-sorted and on consistently permuted inputs and '
          'the model-predicted un-sorting of the sorted run must equal the permuted run bit for bit (with/without user weights/alpha, '
-         'max_iter in {0,1,2,default}, five permutation kinds, x-only/z-only/both in 2-D).'),
+         'max_iter in {0,1,2,default}, five permutation kinds, x-only/z-only/both in 2-D). Also: single-parameter variants of every method, every non-empty subset of the per-point arguments (alpha alone, weights alone, both); differences within 1000x the effect of a 1e-14 data perturbation are attributed to conditioning.'),
    note=('Trusted: Lean kernel; axioms propext, Classical.choice, Quot.sound; the correspondence harness; np.argsort(mergesort) is '
          'a stable sort and fancy indexing selects elements. The wrapped numerical cores are black boxes (no hypothesis on them is '
          'needed). Conformance of each method to the wrapper (every per-point input sorted once, every per-point output un-sorted once) '
@@ -58,7 +58,7 @@ CLAIMED = {
          'assignments) and every probe call the probe\'s outcome equals the outcome on a fresh object with the same x. Correspondence: '
          'random and directed histories on real objects (unique x, duplicate x, no x; 1-D and 2-D); after every operation the observable '
          'state incl. content fingerprints of the cached Vandermonde/pseudo-inverse is diffed with the model, and the probe result is '
-         'compared with a fresh real object.'),
+         'compared with a fresh real object. Also: directed histories on objects with duplicate x (a call that raised must not change what later unique-x calls do).'),
    note=('Trusted: Lean kernel; axioms propext, Classical.choice, Quot.sound; harness. Numerical equality of reused/fresh results is '
          'compared to 1e-8 relative on explored histories; which real method maps to which model operation is fixed in the harness.'),
    technique='Lean 4 invariant + refinement proof of the cache state machine, tied by state-by-state correspondence on real objects',
@@ -95,7 +95,7 @@ CLAIMED = {
          'indices inside the data and (sorted distinct x) contains its fitted point; skip ranges with interior are exactly the gaps between '
          'consecutive fits; skipped points lie on the chord of their fitted neighbours. Correspondence/direct evaluation on the real loess: '
          'conserve_memory True vs False (baseline, weights, coef, tol_history), compiled vs Python-source kernels on well-posed fits, chord '
-         'law at skipped points, polynomial reproduction, over x kinds, total_points poly_order+1..N, delta 0..beyond range, max_iter 0..10.'),
+         'law at skipped points, polynomial reproduction, over x kinds, total_points poly_order+1..N, delta 0..beyond range, max_iter 0..10. Also: caller-supplied non-uniform weights in the strategy equivalence.'),
    note=('Trusted: Lean kernel; axioms propext, Classical.choice, Quot.sound; harness. Equality of the two memory strategies and polynomial '
          'reproduction are decided on explored inputs (np.linalg.solve is a black box); rank-deficient local fits are excluded from the '
          'compiled/uncompiled comparison.'),
@@ -136,7 +136,7 @@ CLAIMED = {
          'eigenvalues on its own index); the truncated eigen solve is the Galerkin solution of the documented system, and with all '
          'eigenvectors it equals the direct solve (Mathlib matrices, any index types). Correspondence: 2-D systems with distinct per-axis '
          'lam / diff_order / num_eigens / knots / degree on square and non-square grids compared with the dense Kronecker definition; '
-         'axis-swap symmetry; Galerkin certificate of the eigen path with independently computed eigenvectors.'),
+         'axis-swap symmetry; Galerkin certificate of the eigen path with independently computed eigenvectors. Also: long grids (one axis 90-500 points, lam 1e6-1e8) with a conditioning-aware Galerkin tolerance.'),
    note=('Trusted: Lean kernel; axioms propext, Classical.choice, Quot.sound; harness. Eigen-decomposition (LAPACK) is a black box '
          'certified by the Galerkin residual against independently computed eigenvectors.'),
    technique='Lean 4 proof of Kronecker/array-algebra index identities + dense-definition differential check with per-axis distinct parameters',
@@ -190,7 +190,7 @@ CLAIMED = {
          'imodpoly, penalized_poly x 5 cost functions, quant_reg, goldindec, dietrich, loess coefficients, 2-D versions with max_cross, '
          'fitter objects reused across orders) the returned coefficients are evaluated EXACTLY in rationals on the user\'s x (and z) and '
          'must reproduce the returned baseline within a rounding budget derived from sum|c_j||x|^j; for poly the exact weighted normal-'
-         'equation residual must vanish relative to its scale; domains with offsets up to 1e12, scales 1e-9..1e5, negative, unsorted.'),
+         'equation residual must vanish relative to its scale; domains with offsets up to 1e12, scales 1e-9..1e5, negative, unsorted. Also: loess coefficients under both memory strategies, with skipped points and several robust iterations.'),
    note=('Trusted: Lean kernel; axioms propext, Classical.choice, Quot.sound; harness. np.linalg.pinv/lstsq are black boxes certified only '
          'on explored inputs; the mapped variable is taken as numpy computes it.'),
    technique='Lean 4 proof of the coefficient transform and of normal-equations => unique minimiser + exact-rational certificates of real outputs',
@@ -202,7 +202,7 @@ CLAIMED = {
          'windows >= 2 (also longer than the data); padded_convolve returns N points, p >= 1, and leaves constant data unchanged for any '
          'normalised kernel no longer than the data; normalising a non-negative symmetric kernel keeps these and makes it sum to one; '
          'optimize_window >= 1 for every outcome of its tests. Correspondence: pad_edges/pad_edges2d(extrapolate)/padded_convolve vs the '
-         'models; all NumPy modes for length/interior; planar continuation in 2-D; Gaussian/mollifier kernels; optimize_window values.'),
+         'models; all NumPy modes for length/interior; planar continuation in 2-D; Gaussian/mollifier kernels; optimize_window values. Also: the same integer-valued numbers as int64 / int32 / list / float32 are padded with the same values.'),
    note=('Trusted: Lean kernel; axioms propext, Classical.choice, Quot.sound; harness. np.pad modes, Polynomial.fit/pinv and '
          'scipy.signal.convolve are checked against the models on explored inputs; kernels\' exp values are float (laws checked directly).'),
    technique='Lean 4 proof over exact-rational models of padding/convolution + correspondence',
@@ -217,7 +217,7 @@ CLAIMED = {
          'checkers vs the model on every value-class representative x flags (exhaustive finite product); every public method (95) x '
          'every listed scalar parameter it has x out-of-domain values, non-finite data at first/last/random positions, wrong-length and '
          'non-finite data/weights/alpha, invalid solver and method names, with sorted and unsorted x (and z): must raise '
-         'ValueError/TypeError.'),
+         'ValueError/TypeError. Also: non-finite data through every input path (fitter with x, fitter without x on its first and second call, module-level function with and without x_data).'),
    note=('Trusted: Lean kernel; axioms propext, Classical.choice, Quot.sound; harness; NumPy conversions are modelled. Which method '
          'parameter is bound to which checker is decided by the exhaustive method-level run, not by a theorem. Exclusions stated in '
          'the evidence assumptions (inactive lam of rubberband/custom_bc, smooth_half_window, closed p interval of the mpls family, '
@@ -233,7 +233,7 @@ CLAIMED = {
          'single-pass wrapped fits with the reported average weights/alpha (21 wrapped methods, both averaging modes, any letter case), '
          'adaptive_minmax vs the maximum of the four fits from the reported orders and weights, custom_bc identity vs the wrapped method '
          '(13 methods) and general region plans vs the Lean planner, optimize_extended_range vs a direct fit of the re-built extended '
-         'data with the reported optimal parameter, cut-back weights, min_rmse; class and functional interfaces, sorted/rotated/shuffled x.'),
+         'data with the reported optimal parameter, cut-back weights, min_rmse; class and functional interfaces, sorted/rotated/shuffled x. Also: one-sided and zero constrained fractions of adaptive_minmax.'),
    note=('Trusted: Lean kernel; axioms propext, Classical.choice, Quot.sound; harness (incl. its reference construction of the extended '
          'data set). The wrapped method is a black box by design. Observation (not claimed as violation): for polynomial methods the '
          'reported rmse array is integer-typed and therefore truncated.'),
@@ -249,7 +249,7 @@ CLAIMED = {
          'input that `_setup_*` was asked to copy. Correspondence: every method (1-D/2-D) x every array/dict argument x layouts '
          '(contiguous, strided view, read-only, list, column, row, float32) x sorted/unsorted x x returning/raising calls with byte '
          'snapshots of all caller objects (incl. backing stores and dict contents); observed np.shares_memory between caller arrays and '
-         'what the core receives vs the Lean aliasing model.'),
+         'what the core receives vs the Lean aliasing model. Also: every banded_solver value, single-parameter variants (optional pre-smoothing etc.) and noise-free data kinds.'),
    note=('Trusted: Lean kernel; axioms propext, Quot.sound; translate.gen_inplace (scanner; helper functions outside the registered '
          'method bodies are covered only dynamically); harness. Partial: completeness of the scan is not proved.'),
    technique='Lean 4 soundness proof of an ownership calculus + decide over an in-place-write table translated from the source each run + snapshot correspondence',
@@ -263,7 +263,7 @@ CLAIMED = {
          'float32/int64 data, x and z as list/float32/column/strided, per-point arguments as list/column/float32/strided/int, explicit '
          'output_dtype, omitted x (and z), method names in other letter cases (also the wrapped-method names of optimizers), the '
          'functional interface with positional and keyword data: each variant must equal the reference call cast to the documented '
-         'dtype bit for bit (memory-layout variants and explicit output dtypes: to rounding).'),
+         'dtype bit for bit (memory-layout variants and explicit output dtypes: to rounding). Also: parameter variants, functional-vs-method equivalence on rotated / shuffled x, per-point arguments inside method_kwargs in every container, omitted x for float32 / integer data.'),
    note=('Trusted: Lean kernel; axioms propext, Classical.choice, Quot.sound; harness; NumPy conversions and casts themselves.'),
    technique='Lean 4 proof of the container-independent wrapper logic + bit-exact differential correspondence over input variants of every method',
    design='4.C16'),
@@ -275,7 +275,7 @@ CLAIMED = {
          '95 methods x data kinds (noise+peaks, 1e6 offset, 1e-6 scale, negative, integer-valued, float32, int64, row/column/stack shapes, '
          'unsorted x) x sizes 10..2000 x max_iter variations: shape, dtype, per-point parameter shapes, tol_history bound, finiteness, '
          'ordering against the sorted run; trajectory replay: the tol=0 difference stream of each iterative method is fed to the Lean '
-         'skeleton, which predicts len(tol_history) and the stop reason for a (max_iter, tol) grid that the real method must reproduce.'),
+         'skeleton, which predicts len(tol_history) and the stop reason for a (max_iter, tol) grid that the real method must reproduce. Also: every optional parameter of every method moved to non-default values derived from the signature (single-parameter variants), noise-free data kinds, and the honest-stop clause (a convergence record shorter than the budget ends below the requested tol unless a rule signalled the early exit).'),
    note=('Partial: that each numerical core preserves the length of its input and yields finite numbers on noisy finite data is floating-'
          'point behaviour of 95 NumPy bodies; it is decided on the explored inputs only. Trusted: Lean kernel; axioms propext, '
          'Classical.choice, Quot.sound; harness; golden/loop_budget.json (iterations allowed per method, derived from the unchanged tree).'),
